@@ -169,6 +169,60 @@ def run_impl(case: Case, tables):
     return src, r
 
 
+def run_on(exe, case: Case, tables):
+    """One query on a given executor object (the object is kept by the caller and reused)."""
+    import tempfile
+    from pathlib import Path
+
+    src = case.query(tables)
+    try:
+        a = impl.query_ast(src, case.md)
+    except Exception as e:  # noqa: BLE001
+        return src, ("error", "query-construction:" + type(e).__name__, str(e)[:200])
+    with tempfile.TemporaryDirectory(prefix="fv-c06-") as d:
+        out = Path(d)
+        try:
+            a2 = exe.apply_ast_transformations(a)
+            exe.write_cpp_files(a2, out)
+        except Exception as e:  # noqa: BLE001 - exception class is the observable
+            return src, ("error", type(e).__name__, str(e)[:300])
+        files = {f.name: {"text": f.read_text(), "mode": f.stat().st_mode & 0o777} for f in sorted(out.iterdir())}
+    return src, ("ok", {"files": files})
+
+
+def outcome_class(res) -> str:
+    return "ok" if res[0] == "ok" else res[1]
+
+
+def run_sequence(backend: str, steps: List["Case"], tables):
+    """All steps on ONE executor object, in order.  A step whose uses name something that is neither a
+    built-in nor declared by that step is additionally run on a fresh executor (reference outcome)."""
+    exe = impl.executors()[backend]()
+    out = []
+    for c in steps:
+        src, res = run_on(exe, c, tables)
+        ref = None
+        if any(u.name not in c.specs(tables) for u in c.uses):
+            ref = outcome_class(run_on(impl.executors()[backend](), c, tables)[1])
+        out.append((src, res, ref))
+    impl.reset_globals()
+    return out
+
+
+def sequence_oracle(steps: List["Case"], tables, results) -> Optional[Tuple[int, str]]:
+    """The property is a statement about each query: what an earlier query on the same executor declared
+    must not matter.  Returns (index of the failing step, description)."""
+    for i, (c, (src, res, ref)) in enumerate(zip(steps, results)):
+        if ref is not None:
+            if outcome_class(res) != ref:
+                return (i, f"query {i + 1} uses a name that is neither built-in nor declared by it: a fresh executor gives {ref}, the reused executor gives {outcome_class(res)}")
+            continue
+        bad = oracle(c, tables, res)
+        if bad:
+            return (i, f"query {i + 1} ({src}) after {i} earlier quer{'y' if i == 1 else 'ies'} on the same executor: [{bad[0]}] {bad[1]}")
+    return None
+
+
 # --------------------------------------------------------------------------------------------
 # reading the rendered package
 # --------------------------------------------------------------------------------------------
@@ -565,6 +619,38 @@ def random_case(rng: random.Random, tables) -> Case:
     return case
 
 
+def reuse_sequences(rng: random.Random, tables, n_random: int) -> List[Tuple[str, List[Case]]]:
+    """Query sequences for one executor object: a query declaring a collection that replaces a built-in and
+    one with a new name, then metadata-free queries using the built-in name and the (now undeclared) new name."""
+    out: List[Tuple[str, List[Case]]] = []
+    for b in BACKENDS:
+        names = list(tables[b])
+        for i, n in enumerate(names):
+            k = i % len(TYPES)
+            over = {"metadata_type": MD_TYPE[b], "name": n, "include_files": [INCS[i % len(INCS)]], "container_type": TYPES[k],
+                    "element_type": ELEMS[k], "contains_collection": True}
+            fresh = {"metadata_type": MD_TYPE[b], "name": "MyThings", "include_files": ["a.h"], "container_type": "My::ThingContainer",
+                     "element_type": "My::Thing", "contains_collection": True}
+            if b == "atlas":
+                over["link_libraries"] = ["MyLib"]
+            bank = BANKS[i % len(BANKS)]
+            a = Case(b, "tuple", [Use(n, [bank], "select"), Use("MyThings", ["things"])], [over, fresh], "declares override + new name")
+            b1 = Case(b, "tuple", [Use(n, [bank], "select" if tables[b][n]["coll"] else "count")], [], "built-in after override")
+            c1 = Case(b, "tuple", [Use("MyThings", ["things"])], [], "undeclared name after declaration")
+            b2 = Case(b, "tuple", [Use(n, [BANKS[(i + 1) % len(BANKS)]]), Use(names[(i + 1) % len(names)], [bank])], [], "two built-ins after override")
+            out.append((b, [a, b1, c1, b2]))
+    for _ in range(n_random):
+        b = rng.choice(BACKENDS)
+        steps = []
+        for _ in range(rng.randint(2, 4)):
+            c = random_case(rng, tables)
+            while c.backend != b:
+                c = random_case(rng, tables)
+            steps.append(c)
+        out.append((b, steps))
+    return out
+
+
 def subst_cases(rng: random.Random, n: int) -> List[Tuple[str, str, str]]:
     words = ["collection_name", "result", "x", "collection_name2", "_collection_name", "collection", "name", "Collection_Name"]
     seps = [" ", "(", ")", ",", ";", "->", ".", "::", "<", ">", "*", "\"", "-", "=", "\t", "", ""]
@@ -691,6 +777,52 @@ def check(tier: str, seed: int, t0: float, build: core.BuildStatus) -> int:
                 oc.traces_validated_against_impl += 1
             else:
                 oc.correspondence_breaks.append(d)
+    # several queries on ONE executor object: an earlier query's declarations must not reach a later query
+    n_seq_random = 40 if tier == "quick" else 600
+    seqs = reuse_sequences(rng, tables, n_seq_random)
+    seq_steps = 0
+    seq_reported = False
+    for b, steps in seqs:
+        results = run_sequence(b, steps, tables)
+        oc.evaluations += len(steps)
+        seq_steps += len(steps)
+        distinct.add(json.dumps([b, [r[0] for r in results], [c.md for c in steps]], sort_keys=True))
+        bad = sequence_oracle(steps, tables, results)
+        if bad:
+            if seq_reported:
+                continue
+            seq_reported = True
+            # shrink: drop steps before / after the failing one while it still fails
+            cur = steps[: bad[0] + 1]
+            changed = True
+            while changed and len(cur) > 1:
+                changed = False
+                for i in range(len(cur) - 1):
+                    cand = cur[:i] + cur[i + 1:]
+                    if sequence_oracle(cand, tables, run_sequence(b, cand, tables)) is not None:
+                        cur, changed = cand, True
+                        break
+            res2 = run_sequence(b, cur, tables)
+            what = sequence_oracle(cur, tables, res2)
+            alone = oracle(cur[-1], tables, run_impl(cur[-1], tables)[1]) if all(u.name in cur[-1].specs(tables) for u in cur[-1].uses) else None
+            oc.violations.append(core.Violation(
+                key="c06:executor-reuse",
+                what=f"{b}: on one executor object, {what[1]}; the same query on a fresh executor: {'holds' if alone is None else alone[1]}",
+                replay={"kind": "sequence", "backend": b, "steps": [c.to_json(tables) for c in cur], "oracle": what[1],
+                        "model_last_step": model.call("c06.query", cur[-1].wire()) if model else None,
+                        "broken": "property oracle on the package rendered for the last query of the sequence (theorems C06_builtin_kept / C06_override are per-query: the method table of a query is the backend table updated by that query's own declarations)"}))
+            continue
+        if model is not None:
+            for c, (src, res, ref) in zip(steps, results):
+                if ref is not None:
+                    oc.traces_validated_against_impl += 1
+                    continue
+                d = compare(c, tables, res, model)
+                if d is None:
+                    oc.traces_validated_against_impl += 1
+                else:
+                    d["after_earlier_queries_on_same_executor"] = True
+                    oc.correspondence_breaks.append(d)
     # the substitution alone against re.sub
     n_sub = 1500 if tier == "quick" else 20000
     sub_ok = 0
@@ -720,10 +852,11 @@ def check(tier: str, seed: int, t0: float, build: core.BuildStatus) -> int:
     oc.rule = (f"corpus ({n_corpus}) + every built-in collection of the three tables x {len(BANKS)} bank strings alone, and with {6 if tier == 'quick' else len(BANKS)} bank strings in "
                f"{{two different collections, same collection twice (same / different bank), nested lambda, Where predicate, SelectMany}} ({len(bi)} queries) "
                f"+ {n_random} random cases (0-3 metadata declarations incl. overrides of built-ins, 22% malformed: bad declaration keys, foreign backend, arity 0/2, non-string argument) "
+               f"+ {len(seqs)} query sequences on one executor object each ({seq_steps} queries: declaration overriding every built-in + a new name, then metadata-free queries; {n_seq_random} random sequences of 2-4 cases) "
                f"+ {n_sub} substitution lines against re.sub; non-trivial = at least two collection uses or a declaration; distinct by (backend, query text, metadata)")
     oc.samples = [c.to_json(tables) for c in (bi[1], bi[len(bi) // 2], cases[n_corpus + len(bi)], cases[-1])]
     oc.extra = {"input_classes": dict(hist), "per_backend": dict(per_backend), "positions": dict(positions), "implementation_errors": dict(errs),
-                "builtins_not_covered": missing, "substitution_lines_ok": sub_ok, "translator_refusal": refusal, "model_available": build.model_ok,
+                "builtins_not_covered": missing, "executor_reuse_sequences": len(seqs), "executor_reuse_queries": seq_steps, "substitution_lines_ok": sub_ok, "translator_refusal": refusal, "model_available": build.model_ok,
                 "bank_alphabet": "[A-Za-z0-9_:.- ] (22 fixed strings incl. 'result' and 'collection_name')"}
     concrete = [v for v in oc.violations if not v.no_failing_input]
     if ps.broken or refusal or oc.correspondence_breaks or not build.model_ok or core.build_hygiene_cache():
@@ -746,6 +879,25 @@ def replay(path: str, build: core.BuildStatus) -> int:
         print("proof status now:", ps.broken or "all theorems check")
         return 1 if ps.broken else 0
     tables = impl_tables()
+    if data.get("kind") == "sequence":
+        steps = [Case.from_json(c) for c in data["steps"]]
+        results = run_sequence(data["backend"], steps, tables)
+        for i, (c, (src, res, ref)) in enumerate(zip(steps, results)):
+            print(f"query {i + 1} on the same {data['backend']} executor:", src)
+            print("  metadata:", json.dumps(c.md))
+            if res[0] == "error":
+                print("  implementation:", res[1], res[2])
+            else:
+                for f in projection(c.backend, res[1]["files"])["fetches"]:
+                    print("  retrieval:", " ".join(f["lines"]), "| declared:", f["decls_in_parent"])
+            if ref is not None:
+                print("  fresh executor gives:", ref)
+        bad = sequence_oracle(steps, tables, results)
+        print("oracle:", bad[1] if bad else "property holds on this sequence")
+        if bad:
+            print(f"VIOLATION property={PID} replay={path}")
+            return 1
+        return 0
     case = Case.from_json(data)
     src, res = run_impl(case, tables)
     print("backend:", case.backend)
